@@ -121,6 +121,46 @@ pub(super) fn to_transport_addr(
     }
 }
 
+/// verif-hooks: unchanged pass-throughs to the three [`AddrMap`]s and to
+/// [`to_transport_addr`] for the external verification harness (see
+/// `crate::verif_hooks::addr_maps`).
+#[cfg(feature = "verif-hooks")]
+impl MappedAddrs {
+    pub(crate) fn verif_endpoint_get(&self, key: &EndpointId) -> EndpointIdMappedAddr {
+        self.endpoint_addrs.get(key)
+    }
+
+    pub(crate) fn verif_endpoint_lookup(&self, addr: &EndpointIdMappedAddr) -> Option<EndpointId> {
+        self.endpoint_addrs.lookup(addr)
+    }
+
+    pub(crate) fn verif_relay_get(&self, key: &(RelayUrl, EndpointId)) -> RelayMappedAddr {
+        self.relay_addrs.get(key)
+    }
+
+    pub(crate) fn verif_relay_lookup(
+        &self,
+        addr: &RelayMappedAddr,
+    ) -> Option<(RelayUrl, EndpointId)> {
+        self.relay_addrs.lookup(addr)
+    }
+
+    pub(crate) fn verif_custom_get(&self, key: &CustomAddr) -> CustomMappedAddr {
+        self.custom_addrs.get(key)
+    }
+
+    pub(crate) fn verif_custom_lookup(&self, addr: &CustomMappedAddr) -> Option<CustomAddr> {
+        self.custom_addrs.lookup(addr)
+    }
+
+    pub(crate) fn verif_to_transport_addr(
+        &self,
+        addr: std::net::SocketAddr,
+    ) -> Option<transports::Addr> {
+        to_transport_addr(addr, &self.relay_addrs, &self.custom_addrs)
+    }
+}
+
 /// Stores the state required for starting and cleaning up the `RemoteStateActor`s.
 ///
 /// When this is dropped, this will abort all tasks.
